@@ -387,6 +387,35 @@ def gen(rnd, *, core=False, res_choices=(60, 60, 30, 15), subslot=True, alap=Non
     return m
 
 
+def make_ties(rnd, m):
+    """in place: resources with identical calendars, the first one away for the whole window, and effort tasks that
+    allocate it with SEVERAL alternatives - the alternatives tie, so whatever breaks the tie becomes visible
+    (seeded changes C12-c and C15-c: hash order / alphabetical order of the ids instead of the written order)"""
+    rs = m["resources"]
+    if len(rs) < 3:
+        return False
+    for r in rs:
+        for k in ("shift", "inline", "tz", "leaves", "vacs", "bookings", "limits"):
+            r.pop(k, None)
+        r["eff"] = 1.0
+    span = m.get("days") or 7 * m["weeks"]
+    rs[0]["leaves"] = [(m["start"].replace(hour=0, minute=0) - timedelta(days=1), m["start"] + timedelta(days=span + 400))]
+    others = [r["id"] for r in rs[1:]]
+    n = 0
+    for t in m["tasks"]:
+        if "effort_min" not in t:
+            continue
+        t.pop("limits", None)
+        if n < 3 and rnd.random() < 0.6:
+            t["alloc"] = [rs[0]["id"]]
+            t["alt"] = rnd.sample(others, rnd.randint(2, len(others)))
+            n += 1
+        else:
+            t["alloc"] = [rnd.choice(others)]
+            t.pop("alt", None)
+    return n > 0
+
+
 def equalize_teams(m, alts=False):
     """members of one team (and, if alts, primary+alternatives) get one efficiency: unequal teams have no unique
     effort semantics (DESIGN 3.2). Union-find so that chains of shared members end in a consistent assignment."""
